@@ -43,6 +43,37 @@ def _compare_gaf(inp):
     return ("fails", "; ".join(bad[:3])) if bad else ("holds", "sign agrees with the key on all pairs of the model")
 
 
+@replayer("gaftools.conversion:merge_nodes")
+def _merge_nodes(inp):
+    """independent oracle: two oriented stable intervals merge iff same contig, same orientation and they touch in travel order; the merged
+    interval is their union, with that orientation; the arguments are left as they were"""
+    from gaftools.conversion import merge_nodes, StableNode
+    n1, n2 = inp["node1"], inp["node2"]
+    o1, o2 = inp["orient1"], inp["orient2"]
+    a = StableNode(n1["contig_id"], n1["start"], n1["end"])
+    b = StableNode(n2["contig_id"], n2["start"], n2["end"])
+    before = [(a.contig_id, a.start, a.end), (b.contig_id, b.start, b.end)]
+    r = merge_nodes(a, b, o1, o2)
+    after = [(a.contig_id, a.start, a.end), (b.contig_id, b.start, b.end)]
+    touching = (a.end == b.start) if o1 == ">" else (a.start == b.end) if o1 == "<" else None
+    mergeable = n1["contig_id"] == n2["contig_id"] and o1 == o2 and o1 in "<>" and bool(touching)
+    call = "merge_nodes(%s, %s, %r, %r)" % (before[0], before[1], o1, o2)
+    if before != after:
+        return "fails", "%s changed its arguments: %s -> %s" % (call, before, after)
+    if not mergeable:
+        if r is not False:
+            got = r if not isinstance(r, list) else [(r[0].contig_id, r[0].start, r[0].end), r[1]]
+            return "fails", "%s = %r although the intervals are not mergeable (contig, orientation or adjacency differ)" % (call, got)
+        return "holds", "not mergeable, returned False"
+    if r is False or not isinstance(r, list):
+        return "fails", "%s = %r although the intervals are mergeable" % (call, r)
+    want = (n1["contig_id"], min(n1["start"], n2["start"]), max(n1["end"], n2["end"]))
+    got = (r[0].contig_id, r[0].start, r[0].end)
+    if got != want or r[1] != o1:
+        return "fails", "%s = [%s, %r], expected [%s, %r]" % (call, got, r[1], want, o1)
+    return "holds", "merged as expected"
+
+
 def replay(qual, inputs):
     f = REPLAYERS.get(qual)
     if f is None:
